@@ -5,6 +5,7 @@ package main
 import (
 	"encoding/json"
 	"fmt"
+	"reflect"
 	"strings"
 
 	jmespath "github.com/jmespath/go-jmespath"
@@ -286,4 +287,38 @@ func cliNonJSONSpace() []string {
 		out = append(out, w+"{\"a\": 1}", "{\"a\": 1}"+w, w+"[1, 2]"+w, " "+w+" {\"a\": 1}")
 	}
 	return out
+}
+
+// documents decoded with json.Decoder.UseNumber (numbers are json.Number values): Search leaves
+// them as they are, value by value and type by type (C06)
+func famJSONNumberDocs(r *Run) {
+	texts := []string{`{"a": {"n": 1}, "xs": [1, 2.5, {"k": 3}], "s": "x"}`, `[1, [2, {"z": 3.5}], "t"]`, `{"n": 10, "m": {"deep": [[1e2]]}}`, `7`}
+	exprs := []string{"s", "a", "a.n", "xs", "xs[0]", "xs[*]", "xs[2].k", "@", "*", "[0]", "[1][1].z", "length(@)", "to_string(@)", "xs[?@ > `1`]", "sum(xs)", "abs(a.n)",
+		"nosuch(@)", "xs[::0]", "a.n == `1`", "sort(xs)", "max(xs)", "to_number(a.n)", "type(a.n)", "keys(@)", "values(@)", "not_null(a.n, s)", "[a.n, xs[1]]", "{k: a.n}", "n", "m.deep[0][0]", "avg(xs)"}
+	for _, t := range texts {
+		for _, e := range exprs {
+			dec := json.NewDecoder(strings.NewReader(t))
+			dec.UseNumber()
+			var doc, snap interface{}
+			if dec.Decode(&doc) != nil {
+				continue
+			}
+			dec2 := json.NewDecoder(strings.NewReader(t))
+			dec2.UseNumber()
+			dec2.Decode(&snap)
+			r.mark("json-number-docs", e, nil)
+			o := observeSearch(e, doc)
+			r.count("jsonnumber:" + o.Kind)
+			if !reflect.DeepEqual(doc, snap) {
+				r.violate("json-number-docs", e, nil, "document decoded with UseNumber was modified by Search (a json.Number value replaced or changed)",
+					fmt.Sprintf("document text %s; after the call: %#v", t, doc))
+			}
+			if jp, err := jmespath.Compile(e); err == nil {
+				obsOfSearchCompiled(jp, doc)
+				if !reflect.DeepEqual(doc, snap) {
+					r.violate("json-number-docs", e, nil, "document decoded with UseNumber was modified by a compiled expression's Search", fmt.Sprintf("document text %s; after the call: %#v", t, doc))
+				}
+			}
+		}
+	}
 }
